@@ -173,10 +173,15 @@ def run_modules(run: Run, modules, n_random):
     """Dump, generate, compile.  -> (dumps, per-module results)"""
     t0 = time.time()
     D.SHARED_FAILS.clear()
+    D.FALSY_FAILS.clear()
     dumps = [D.dump_module(lab, mod, dom, ver, run.rng, n_random) for lab, mod, dom, ver in modules]
     for sf in D.SHARED_FAILS[:40]:
         run.fail("impl", f"C11/{sf['module'].replace('spox.opset.', '')}/{sf['operator']}/emission/inputs-shared-var",
                  f"{sf['operator']}: with one Var passed to several slots the emitted inputs {sf['emitted_inputs']} differ from the prescribed {sf['prescribed_inputs']}", sf)
+    for ff in D.FALSY_FAILS[:40]:
+        run.fail("impl", f"C11/{ff['module'].replace('spox.opset.', '')}/{ff['operator']}/emission/falsy-optional-input-accepted",
+                 f"{ff['operator']}: the optional input {ff['input']} given as {ff['value']} (neither None nor a Var) is accepted: the slot "
+                 "disappears and later operands land in the wrong schema slots", ff)
     t_dump = time.time() - t0
     sc = run.scratch() / "gen"
     sc.mkdir(parents=True, exist_ok=True)
